@@ -1,7 +1,8 @@
 (* RefModel/C12Proofs.v — a read-only selection never changes the mailbox:
-   proofs over RefModel/Model.v, for every state (no invariant needed: the
-   session's view may be arbitrarily stale, as it is when other sessions
-   change the mailbox) and every program. *)
+   proofs over RefModel/Model.v, for every state whose UIDs lie below the UID
+   counters (no invariant about the session's view: it may be arbitrarily stale),
+   every program of message commands, and any changes other connections make in
+   between (labels LExt). *)
 From PV Require Import Base.Prelude Wire.SeqSet RefModel.Flags RefModel.Model RefModel.BoxLemmas.
 Local Open Scope N_scope.
 
@@ -11,21 +12,26 @@ Definition no_rw (st : state) : Prop :=
 Definition ro_selected (st : state) : Prop :=
   exists s, st_sel st = Some s /\ s_ro s = true.
 Definition is_select (c : cmd) : bool := match c with CSelect _ _ => true | _ => false end.
+Definition is_names (c : cmd) : bool :=
+  match c with CCreate _ _ | CDelete _ | CRename _ _ _ => true | _ => false end.
+(* the message commands (and NOOP/CHECK/STATUS/SEARCH): everything but SELECT/EXAMINE,
+   which would end the selection, and CREATE/DELETE/RENAME, which are about names *)
+Definition msg_cmd (c : cmd) : Prop := is_select c = false /\ is_names c = false.
 Definition dest_of (c : cmd) : option N :=
   match c with
-  | CAppend b _ _ _ => Some b | CCopy _ _ d => Some d | CMove _ _ d => Some d
+  | CAppend b _ => Some b | CCopy _ _ d => Some d | CMove _ _ d => Some d
   | _ => None
   end.
-Definition dests (prog : list cmd) : list N :=
-  flat_map (fun c => match dest_of c with Some d => [d] | None => [] end) prog.
+Definition cmd_D (c : cmd) : list N := match dest_of c with Some d => [d] | None => [] end.
+Definition dests (prog : list cmd) : list N := flat_map cmd_D prog.
 
 (* mailbox [b'] (named n) is [b] plus messages delivered at its end, which
    is possible only if it is not read-only and n is in D; everything else is
-   literally the same *)
+   literally the same (a failed MULTIAPPEND only uses up UIDs) *)
 Definition box_adds (D : list N) (n : N) (b b' : mbox) : Prop :=
   (exists added, b_msgs b' = b_msgs b ++ added /\
-                 Forall (fun m => b_maxuid b < m_uid m) added) /\
-  b_ro b' = b_ro b /\ b_perm b' = b_perm b /\ b_maxuid b <= b_maxuid b' /\
+                 Forall (fun m => b_maxuid b < m_uid m <= b_maxuid b') added) /\
+  b_ro b' = b_ro b /\ b_perm b' = b_perm b /\ b_uidv b' = b_uidv b /\ b_maxuid b <= b_maxuid b' /\
   (b_ro b = true \/ ~ In n D -> b' = b).
 Definition only_adds (D : list N) (bs bs' : boxes) : Prop :=
   Forall2 (fun x y => fst x = fst y /\ box_adds D (fst x) (snd x) (snd y)) bs bs'.
@@ -38,10 +44,11 @@ Qed.
 
 Lemma box_adds_trans D n b1 b2 b3 : box_adds D n b1 b2 -> box_adds D n b2 b3 -> box_adds D n b1 b3.
 Proof.
-  intros ((a2 & M2 & F2) & R2 & P2 & X2 & E2) ((a3 & M3 & F3) & R3 & P3 & X3 & E3). split.
+  intros ((a2 & M2 & F2) & R2 & P2 & V2 & X2 & E2) ((a3 & M3 & F3) & R3 & P3 & V3 & X3 & E3). split.
   - exists (a2 ++ a3). split; [rewrite M3, M2, app_assoc; reflexivity|].
-    apply Forall_app. split; [exact F2|].
-    eapply Forall_impl; [|exact F3]. cbn. intros m Hm. lia.
+    apply Forall_app. split.
+    + eapply Forall_impl; [|exact F2]. cbn. intros m Hm. lia.
+    + eapply Forall_impl; [|exact F3]. cbn. intros m Hm. lia.
   - repeat split; try congruence; try lia.
     intros Hc. rewrite E3.
     + apply E2. exact Hc.
@@ -65,7 +72,7 @@ Qed.
 Lemma only_adds_mono D D' bs bs' :
   (forall n, In n D -> In n D') -> only_adds D bs bs' -> only_adds D' bs bs'.
 Proof.
-  intros Hs H. induction H as [|x y l1 l2 [K (A & R & P & X & E)] _ IH]; constructor; [|exact IH].
+  intros Hs H. induction H as [|x y l1 l2 [K (A & R & P & V & X & E)] _ IH]; constructor; [|exact IH].
   split; [exact K|]. repeat split; auto.
   intros [Hc|Hc]; apply E; [left; exact Hc|right; intros Hi; apply Hc, Hs, Hi].
 Qed.
@@ -97,22 +104,90 @@ Proof.
   intros H. induction H as [|x y l1 l2 [K _] _ IH]; cbn [map]; [reflexivity|]. congruence.
 Qed.
 
+
+(* UIDs below the counter *)
+Definition uids_bounded (b : mbox) : Prop := Forall (fun m => m_uid m <= b_maxuid b) (b_msgs b).
+Definition wfb (bs : boxes) : Prop := Forall (fun nb => uids_bounded (snd nb)) bs.
+
+Lemma wfb_only_adds D bs bs' : wfb bs -> only_adds D bs bs' -> wfb bs'.
+Proof.
+  intros Hw H. unfold wfb in *. induction H as [|x y l1 l2 [K A] _ IH]; [constructor|].
+  inversion Hw as [|? ? Hx Hl]; subst. constructor; [|apply IH, Hl].
+  destruct A as ((a & M & F) & _ & _ & _ & X & _). unfold uids_bounded in *. rewrite M.
+  apply Forall_app. split.
+  - eapply Forall_impl; [|exact Hx]. cbn. intros m Hm. lia.
+  - eapply Forall_impl; [|exact F]. cbn. intros m Hm. lia.
+Qed.
+
+Lemma wfb_lookup bs n b : wfb bs -> lookup n bs = Some b -> uids_bounded b.
+Proof.
+  intros H. induction H as [|[k b0] r Hx Hr IH]; cbn [lookup]; [discriminate|].
+  destruct (k =? n); [intros E; inversion E; subst; exact Hx|exact IH].
+Qed.
+
 (* delivering one message to a writable mailbox *)
+Lemma box_adds_add D box b fl date cid rc : b_ro b = false -> In box D ->
+  box_adds D box b (fst (mb_add b fl date cid rc)).
+Proof.
+  intros Hro Hin. cbn [mb_add fst]. split; cbn [b_msgs b_ro b_perm b_maxuid b_uidv].
+  - eexists. split; [reflexivity|]. constructor; [cbn; lia|constructor].
+  - repeat split; try reflexivity; try lia.
+    intros [Hc|Hc]; [congruence|exfalso; apply Hc, Hin].
+Qed.
+
 Lemma only_adds_add box b fl date cid rc bs :
   lookup box bs = Some b -> b_ro b = false ->
   only_adds [box] bs (set_box box (fst (mb_add b fl date cid rc)) bs).
 Proof.
   intros Hb Hro. apply (only_adds_set_box _ _ b); [exact Hb|].
-  cbn [mb_add fst]. split; cbn [b_msgs b_ro b_perm b_maxuid].
-  - eexists. split; [reflexivity|]. constructor; [cbn; lia|constructor].
-  - repeat split; try reflexivity; try lia.
-    intros [Hc|Hc]; [congruence|exfalso; apply Hc; left; reflexivity].
+  apply box_adds_add; [exact Hro|left; reflexivity].
+Qed.
+
+(* the APPEND loop: messages at the end, UIDs above the old counter *)
+Lemma append_loop_adds D box bk ds : In box D -> forall msgs b rec b' rec' us failed,
+  b_ro b = false ->
+  append_loop bk ds b rec msgs = (b', rec', us, failed) ->
+  box_adds D box b b' /\
+  (exists added, b_msgs b' = b_msgs b ++ added /\ uids_of added = us /\
+                 Forall (fun m => b_maxuid b < m_uid m) added).
+Proof.
+  intros Hin. induction msgs as [|a r IH]; intros b rec b' rec' us failed Hro H; cbn [append_loop] in H.
+  - inversion H; subst. split; [apply box_adds_refl|]. exists []. rewrite app_nil_r. repeat split. constructor.
+  - destruct (am_fail a).
+    + inversion H; subst. split; [apply box_adds_refl|]. exists []. rewrite app_nil_r. repeat split. constructor.
+    + cbn [mb_add] in H.
+      match type of H with context [append_loop bk ds ?B ?R r] =>
+        destruct (append_loop bk ds B R r) as [[[b2 rec2] us2] f2] eqn:El end.
+      inversion H; subst b' rec' us failed. clear H.
+      match type of El with append_loop _ _ ?B _ _ = _ => set (b1 := B) in * end.
+      destruct (IH b1 _ _ _ _ _ Hro El) as (A2 & added & M & U & F).
+      split.
+      * eapply box_adds_trans; [|exact A2].
+        exact (box_adds_add D box b _ (am_date a) (am_cid a) (negb ds) Hro Hin).
+      * exists (mkMsg (b_maxuid b + 1) (storable bk (b_perm b) (diff (am_flags a) [FRecent]))
+                      (am_date a) (am_cid a) (negb ds) :: added).
+        cbn [b1 b_msgs b_maxuid] in M, F. rewrite M, <- app_assoc. cbn [app uids_of map m_uid].
+        repeat split; [rewrite <- U; reflexivity|].
+        constructor; [cbn; lia|]. eapply Forall_impl; [|exact F]. cbn. intros m Hm. lia.
+Qed.
+
+(* taking the stored messages back (failed MULTIAPPEND) leaves the old messages *)
+Lemma delete_added b b' added : uids_bounded b ->
+  b_msgs b' = b_msgs b ++ added -> Forall (fun m => b_maxuid b < m_uid m) added ->
+  b_msgs (mb_delete b' (uids_of added)) = b_msgs b.
+Proof.
+  intros Hw M F. unfold mb_delete. cbn [b_msgs set_msgs]. rewrite M, filter_app.
+  rewrite filter_all, filter_none; [apply app_nil_r| |].
+  - intros m Hm. apply negb_false_iff, memN_In, in_map, Hm.
+  - intros m Hm. apply negb_true_iff, memN_false. intros Hi. unfold uids_of in Hi.
+    apply in_map_iff in Hi. destruct Hi as (n & En & Hn).
+    unfold uids_bounded in Hw. rewrite Forall_forall in Hw, F. specialize (Hw m Hm). specialize (F n Hn). lia.
 Qed.
 
 (* the COPY loop only delivers to the destination *)
-Lemma copy_loop_only_adds src dst ds pairs : forall bs rec bs' rec' us d,
+Lemma copy_loop_only_adds bk src dst ds pairs : forall bs rec bs' rec' us d,
   lookup dst bs = Some d -> b_ro d = false ->
-  copy_loop false src dst ds bs rec pairs = (bs', rec', us) ->
+  copy_loop bk false src dst ds bs rec pairs = (bs', rec', us) ->
   only_adds [dst] bs bs'.
 Proof.
   induction pairs as [|[q c] r IH]; intros bs rec bs' rec' us d Hd Hro H; cbn [copy_loop] in H.
@@ -120,37 +195,47 @@ Proof.
   - destruct (lookup src bs) as [sb|] eqn:Es; [|eapply IH; eauto].
     destruct (find_msg (m_uid c) (b_msgs sb)) as [m|] eqn:Ef; [|eapply IH; eauto].
     rewrite Hd in H. cbn [mb_add] in H.
-    match type of H with context [copy_loop false src dst ds ?B ?R r] =>
-      destruct (copy_loop false src dst ds B R r) as [[bs3 rec3] us3] eqn:El end.
+    match type of H with context [copy_loop bk false src dst ds ?B ?R r] =>
+      destruct (copy_loop bk false src dst ds B R r) as [[bs3 rec3] us3] eqn:El end.
     inversion H; subst bs' rec' us.
     eapply only_adds_trans.
-    + exact (only_adds_add dst d (m_flags m) (m_date m) (m_cid m) (negb ds) bs Hd Hro).
+    + exact (only_adds_add dst d (storable bk (b_perm d) (m_flags m)) (m_date m) (m_cid m) (negb ds) bs Hd Hro).
     + eapply IH; [| |exact El].
       * rewrite lookup_set_box_same, Hd. reflexivity.
       * exact Hro.
 Qed.
 
-Definition cmd_D (c : cmd) : list N := match dest_of c with Some d => [d] | None => [] end.
-
 (* one command outside a read-write selection *)
-Lemma step_no_rw st c : no_rw st -> is_select c = false ->
+Lemma step_no_rw st c : no_rw st -> wfb (st_boxes st) -> msg_cmd c ->
   no_rw (fst (step st c)) /\ only_adds (cmd_D c) (st_boxes st) (st_boxes (fst (step st c))).
 Proof.
-  intros Hn Hs. unfold no_rw in *.
+  intros Hn Hw [Hs Hnm]. unfold no_rw in *.
   assert (Hsame : no_rw st /\ only_adds (cmd_D c) (st_boxes st) (st_boxes st)).
   { split; [exact Hn|apply only_adds_refl]. }
   unfold no_rw in Hsame.
   destruct c; try discriminate; cbn [step]; cbn [cmd_D dest_of] in *.
-  - (* APPEND *)
+  - (* APPEND / MULTIAPPEND *)
     unfold do_append. destruct (lookup box (st_boxes st)) as [b|] eqn:Eb; [|exact Hsame].
-    destruct (b_ro b) eqn:Ero; [exact Hsame|]. cbn [mb_add].
-    pose proof (only_adds_add box b (storable (st_bk st) (b_perm b) (diff flags [FRecent]))
-                              date cid (negb (dest_selected st box)) (st_boxes st) Eb Ero) as Hadd.
-    cbn [mb_add fst] in Hadd.
-    destruct (st_sel st) as [s|] eqn:Es; [|cbn; split; [exact I|exact Hadd]].
-    match goal with |- context [lookup (s_box s) ?B] => destruct (lookup (s_box s) B) as [sb|] end;
-      [|cbn; split; [exact Hn|exact Hadd]].
-    unfold finish. cbn. split; [exact Hn|exact Hadd].
+    destruct (b_ro b) eqn:Ero; [exact Hsame|].
+    match goal with |- context [append_loop ?K ?D b ?R msgs] =>
+      destruct (append_loop K D b R msgs) as [[[b' rec] us] failed] eqn:El end.
+    destruct (append_loop_adds [box] box _ _ (or_introl eq_refl) _ _ _ _ _ _ _ Ero El)
+      as (Hadd & added & M & U & F).
+    destruct failed.
+    + (* all-or-nothing: the messages are taken back, only UIDs were used up *)
+      cbn [fst st_sel set_sel st_boxes]. split; [exact I|].
+      apply (only_adds_set_box _ _ b); [exact Eb|].
+      destruct Hadd as (_ & R & P & V & X & E).
+      pose proof (delete_added b b' added (wfb_lookup _ _ _ Hw Eb) M F) as Hd. rewrite U in Hd.
+      split; [exists []; rewrite app_nil_r; split; [exact Hd|constructor]|].
+      unfold mb_delete. cbn [b_ro b_perm b_uidv b_maxuid set_msgs]. repeat split; try assumption.
+      intros [Hc|Hc]; [congruence|exfalso; apply Hc; left; reflexivity].
+    + assert (Hall : only_adds [box] (st_boxes st) (set_box box b' (st_boxes st)))
+        by (apply (only_adds_set_box _ _ b); assumption).
+      destruct (st_sel st) as [s|] eqn:Es; [|cbn; split; [exact I|exact Hall]].
+      match goal with |- context [lookup (s_box s) ?B] => destruct (lookup (s_box s) B) as [sb|] end;
+        [|cbn; split; [exact I|exact Hall]].
+      unfold finish. cbn. split; [exact Hn|exact Hall].
   - (* STORE *)
     unfold do_store. destruct (st_sel st) as [s|] eqn:Es; [|cbn; rewrite Es; exact Hsame].
     rewrite Hn. cbn. rewrite Es. exact Hsame.
@@ -162,9 +247,9 @@ Proof.
     destruct (lookup (s_box s) (st_boxes st)) as [b|]; [|cbn; rewrite Es; exact Hsame].
     destruct (lookup dest (st_boxes st)) as [d|] eqn:Ed; [|cbn; rewrite Es; exact Hsame].
     destruct (b_ro d) eqn:Ero; [cbn; rewrite Es; exact Hsame|].
-    match goal with |- context [copy_loop false ?A ?B ?C ?D ?E ?F] =>
-      destruct (copy_loop false A B C D E F) as [[bs' rec] us] eqn:El end.
-    pose proof (copy_loop_only_adds _ _ _ _ _ _ _ _ _ _ Ed Ero El) as Ha.
+    match goal with |- context [copy_loop ?K false ?A ?B ?C ?D ?E ?F] =>
+      destruct (copy_loop K false A B C D E F) as [[bs' rec] us] eqn:El end.
+    pose proof (copy_loop_only_adds _ _ _ _ _ _ _ _ _ _ _ Ed Ero El) as Ha.
     destruct (lookup (s_box s) bs') as [b'|]; [|cbn; rewrite Es; exact Hsame].
     unfold finish. cbn. split; [exact Hn|exact Ha].
   - (* MOVE *)
@@ -174,40 +259,116 @@ Proof.
     unfold do_fetch. destruct (st_sel st) as [s|] eqn:Es; [|cbn; rewrite Es; exact Hsame].
     rewrite Hn. cbn [negb andb].
     destruct (lookup (s_box s) (st_boxes st)) as [b|] eqn:Eb; [|cbn; rewrite Es; exact Hsame].
-    unfold finish. cbn. split; [exact Hn|].
-    rewrite (set_box_id _ _ _ Eb). apply only_adds_refl.
+    unfold finish_h, finish. destruct (negb uid); cbn; (split; [exact Hn|]);
+      rewrite (set_box_id _ _ _ Eb); apply only_adds_refl.
   - (* CLOSE *)
     unfold do_close. destruct (st_sel st) as [s|] eqn:Es; [|cbn; rewrite Es; exact Hsame].
     rewrite Hn. cbn. split; [exact I|apply only_adds_refl].
+  - (* NOOP *)
+    unfold do_noop. destruct (st_sel st) as [s|] eqn:Es; [cbn|cbn; rewrite Es; exact Hsame].
+    destruct (lookup (s_box s) (st_boxes st)) as [b|]; [|cbn; rewrite Es; exact Hsame].
+    unfold finish. cbn. split; [exact Hn|apply only_adds_refl].
+  - (* CHECK *)
+    unfold do_noop. destruct (st_sel st) as [s|] eqn:Es; [cbn|cbn; rewrite Es; exact Hsame].
+    destruct (lookup (s_box s) (st_boxes st)) as [b|]; [|cbn; rewrite Es; exact Hsame].
+    unfold finish. cbn. split; [exact Hn|apply only_adds_refl].
+  - (* STATUS *)
+    unfold do_status. destruct (lookup box (st_boxes st)) as [b|]; [|exact Hsame].
+    destruct (st_sel st) as [s|] eqn:Es; [|cbn; rewrite Es; exact Hsame].
+    destruct (lookup (s_box s) (st_boxes st)) as [sb|]; [|cbn; split; [exact I|apply only_adds_refl]].
+    unfold finish. cbn. split; [exact Hn|apply only_adds_refl].
+  - (* SEARCH *)
+    unfold do_search. destruct (st_sel st) as [s|] eqn:Es; [|cbn; rewrite Es; exact Hsame].
+    destruct (lookup (s_box s) (st_boxes st)) as [b|]; [|cbn; rewrite Es; exact Hsame].
+    unfold finish_h, finish. destruct (negb uid); cbn; (split; [exact Hn|apply only_adds_refl]).
 Qed.
 
-Lemma run_no_rw prog : forall st, no_rw st ->
-  Forall (fun c => is_select c = false) prog ->
-  no_rw (fst (run st prog)) /\ only_adds (dests prog) (st_boxes st) (st_boxes (fst (run st prog))).
+(* ---- what another connection does (labels LExt) *)
+(* its effect on the mailboxes, when the session has no read-write selection *)
+Definition ext_boxes (bk : backend) (bs : boxes) (e : ext) : boxes :=
+  st_boxes (ext_apply (mkState bk bs None) e).
+
+Lemma ext_no_rw st e : no_rw st -> no_rw (ext_apply st e).
 Proof.
-  induction prog as [|c r IH]; intros st Hn Hf; cbn [run dests flat_map].
-  - cbn. split; [exact Hn|apply only_adds_refl].
-  - inversion Hf as [|? ? Hc Hr]; subst.
-    destruct (step_no_rw st c Hn Hc) as [Hn1 Ha1].
-    destruct (step st c) as [st1 o] eqn:Es. cbn [fst] in *.
-    destruct (IH st1 Hn1 Hr) as [Hn2 Ha2].
-    destruct (run st1 r) as [st2 os] eqn:Er. cbn [fst] in *.
-    split; [exact Hn2|].
-    eapply only_adds_trans.
-    + eapply only_adds_mono; [|exact Ha1]. intros n Hi. apply in_or_app. left. exact Hi.
-    + eapply only_adds_mono; [|exact Ha2]. intros n Hi. apply in_or_app. right. exact Hi.
+  unfold no_rw. intros Hn. destruct e; cbn [ext_apply].
+  - destruct (lookup box (st_boxes st)) as [b|]; [|exact Hn]. destruct (b_ro b); exact Hn.
+  - destruct (lookup box (st_boxes st)) as [b|]; [|exact Hn]. destruct (b_ro b); [exact Hn|].
+    cbn [mb_add set_sel st_sel]. destruct (st_sel st) as [s|]; [|exact I].
+    destruct (match st_bk st with Dict => dest_selected st box | Maildir => false end); exact Hn.
+  - destruct (lookup box (st_boxes st)) as [b|]; [|exact Hn]. destruct (b_ro b); [exact Hn|].
+    cbn [set_sel st_sel]. destruct (st_bk st), (st_sel st) as [s|]; try exact Hn; try exact I.
+    destruct (s_box s =? box); exact Hn.
 Qed.
 
-(* ---- the theorems *)
+Lemma ext_boxes_eq st e : no_rw st -> st_boxes (ext_apply st e) = ext_boxes (st_bk st) (st_boxes st) e.
+Proof.
+  unfold no_rw, ext_boxes. intros Hn. destruct e; cbn [ext_apply st_boxes st_bk st_sel].
+  - destruct (lookup box (st_boxes st)) as [b|]; [|reflexivity]. destruct (b_ro b); reflexivity.
+  - destruct (lookup box (st_boxes st)) as [b|]; [|reflexivity]. destruct (b_ro b); [reflexivity|].
+    assert (E : dest_selected st box = false).
+    { unfold dest_selected. destruct (st_sel st) as [s|]; [|reflexivity]. rewrite Hn. reflexivity. }
+    rewrite E. unfold dest_selected. cbn [st_sel]. destruct (st_bk st); reflexivity.
+  - destruct (lookup box (st_boxes st)) as [b|]; [|reflexivity]. destruct (b_ro b); reflexivity.
+Qed.
 
-(* every message that existed stays, in place, with the same flags, date,
-   content and stored \Recent mark; UID counters never go back; the only
-   change is messages delivered (by APPEND / COPY) at the end of writable
-   mailboxes named as a destination *)
-Theorem ro_only_adds st prog :
-  no_rw st -> Forall (fun c => is_select c = false) prog ->
-  only_adds (dests prog) (st_boxes st) (st_boxes (fst (run st prog))).
-Proof. intros Hn Hf. apply run_no_rw; auto. Qed.
+(* programs with labels: every command step, wherever it stands *)
+Fixpoint all_cmd_steps (P : state -> cmd -> state -> Prop) (st : state) (prog : list label) : Prop :=
+  match prog with
+  | [] => True
+  | l :: r => (match l with LCmd c => P st c (fst (step st c)) | LExt _ => True end)
+              /\ all_cmd_steps P (fst (step_l st l)) r
+  end.
+Definition lcmds (prog : list label) : list cmd :=
+  flat_map (fun l => match l with LCmd c => [c] | LExt _ => [] end) prog.
+Definition lexts (prog : list label) : list ext :=
+  flat_map (fun l => match l with LCmd _ => [] | LExt e => [e] end) prog.
+
+Lemma step_l_cmd st c : fst (step_l st (LCmd c)) = fst (step st c).
+Proof. cbn [step_l]. destruct (step st c); reflexivity. Qed.
+
+Lemma uids_bounded_ext bk bs e : wfb bs -> wfb (ext_boxes bk bs e).
+Proof.
+  intros Hw. unfold ext_boxes. destruct e; cbn [ext_apply st_boxes st_bk st_sel].
+  - destruct (lookup box bs) as [b|] eqn:El; [|exact Hw]. destruct (b_ro b); [exact Hw|].
+    cbn [set_sel st_boxes]. pose proof (wfb_lookup _ _ _ Hw El) as Hb.
+    clear El. unfold wfb in *. induction Hw as [|[k b0] r Hx Hr IH]; cbn [set_box]; [constructor|].
+    destruct (k =? box); constructor; try assumption.
+    unfold uids_bounded in *. cbn [b_msgs set_msgs b_maxuid]. rewrite Forall_forall in *.
+    intros m Hm. apply in_map_iff in Hm. destruct Hm as (m0 & <- & Hm0).
+    apply in_map_iff in Hm0. destruct Hm0 as (m1 & <- & Hm1).
+    destruct (memN _ uids); cbn; apply (Hb m1 Hm1).
+  - destruct (lookup box bs) as [b|] eqn:El; [|exact Hw]. destruct (b_ro b); [exact Hw|].
+    cbn [mb_add set_sel st_boxes]. pose proof (wfb_lookup _ _ _ Hw El) as Hb.
+    clear El. unfold wfb in *. induction Hw as [|[k b0] r Hx Hr IH]; cbn [set_box]; [constructor|].
+    destruct (k =? box); constructor; try assumption.
+    unfold uids_bounded in *. cbn [b_msgs b_maxuid]. apply Forall_app. split.
+    + eapply Forall_impl; [|exact Hb]. cbn. intros m Hm. lia.
+    + constructor; [cbn; lia|constructor].
+  - destruct (lookup box bs) as [b|] eqn:El; [|exact Hw]. destruct (b_ro b); [exact Hw|].
+    cbn [set_sel st_boxes]. pose proof (wfb_lookup _ _ _ Hw El) as Hb.
+    clear El. unfold wfb in *. induction Hw as [|[k b0] r Hx Hr IH]; cbn [set_box]; [constructor|].
+    destruct (k =? box); constructor; try assumption.
+    unfold uids_bounded, claim_all in *. cbn [b_msgs set_msgs b_maxuid]. rewrite Forall_forall in *.
+    intros m Hm. apply filter_In in Hm. destruct Hm as [Hm _].
+    apply in_map_iff in Hm. destruct Hm as (m1 & <- & Hm1). cbn. apply (Hb m1 Hm1).
+Qed.
+
+(* every command of a session without read-write selection, whatever other
+   connections do in between, only adds deliveries to writable destinations *)
+Theorem ro_interleaved prog : forall st,
+  no_rw st -> wfb (st_boxes st) -> Forall msg_cmd (lcmds prog) ->
+  all_cmd_steps (fun s c s' => only_adds (cmd_D c) (st_boxes s) (st_boxes s')) st prog.
+Proof.
+  induction prog as [|l r IH]; intros st Hn Hw Hf; cbn [all_cmd_steps]; [exact I|].
+  destruct l as [c|e].
+  - cbn [lcmds flat_map app] in Hf. inversion Hf as [|? ? Hc Hr]; subst.
+    destruct (step_no_rw st c Hn Hw Hc) as [Hn1 Ha]. split; [exact Ha|].
+    rewrite step_l_cmd. apply IH; [exact Hn1|exact (wfb_only_adds _ _ _ Hw Ha)|exact Hr].
+  - split; [exact I|]. cbn [step_l fst]. apply IH.
+    + apply ext_no_rw, Hn.
+    + rewrite ext_boxes_eq by exact Hn. apply uids_bounded_ext, Hw.
+    + exact Hf.
+Qed.
 
 Definition not_writable (bs : boxes) (n : N) : Prop :=
   match lookup n bs with Some b => b_ro b = true | None => True end.
@@ -218,7 +379,7 @@ Proof.
   intros H. induction H as [|[k x] [k' y] l1 l2 [K A] _ IH]; intros Hnd Hd; [reflexivity|].
   cbn [fst snd map] in *. subst k'. inversion Hnd as [|? ? Hk Hnd']; subst.
   assert (Hy : y = x).
-  { destruct A as (_ & _ & _ & _ & E). apply E.
+  { destruct A as (_ & _ & _ & _ & _ & E). apply E.
     destruct (in_dec N.eq_dec k D) as [Hi|Hi]; [|right; exact Hi].
     left. specialize (Hd k Hi). unfold not_writable in Hd. cbn [lookup] in Hd.
     rewrite N.eqb_refl in Hd. exact Hd. }
@@ -231,15 +392,126 @@ Proof.
   cbn [map fst]. destruct (j =? k) eqn:E; [left; apply N.eqb_eq, E|right; apply IHr, El].
 Qed.
 
+(* ---- programs without labels *)
+Lemma run_no_rw prog : forall st, no_rw st -> wfb (st_boxes st) -> Forall msg_cmd prog ->
+  no_rw (fst (run st prog)) /\ only_adds (dests prog) (st_boxes st) (st_boxes (fst (run st prog))).
+Proof.
+  induction prog as [|c r IH]; intros st Hn Hw Hf; cbn [run dests flat_map].
+  - cbn. split; [exact Hn|apply only_adds_refl].
+  - inversion Hf as [|? ? Hc Hr]; subst.
+    destruct (step_no_rw st c Hn Hw Hc) as [Hn1 Ha1].
+    destruct (step st c) as [st1 o] eqn:Es. cbn [fst] in *.
+    destruct (IH st1 Hn1 (wfb_only_adds _ _ _ Hw Ha1) Hr) as [Hn2 Ha2].
+    destruct (run st1 r) as [st2 os] eqn:Er. cbn [fst] in *.
+    split; [exact Hn2|].
+    eapply only_adds_trans.
+    + eapply only_adds_mono; [|exact Ha1]. intros n Hi. apply in_or_app. left. exact Hi.
+    + eapply only_adds_mono; [|exact Ha2]. intros n Hi. apply in_or_app. right. exact Hi.
+Qed.
+
+(* every message that existed stays, in place, with the same flags, date,
+   content and stored \Recent mark; UID counters never go back; the only
+   change is messages delivered (by APPEND / COPY) at the end of writable
+   mailboxes named as a destination *)
+Theorem ro_only_adds st prog :
+  no_rw st -> wfb (st_boxes st) -> Forall msg_cmd prog ->
+  only_adds (dests prog) (st_boxes st) (st_boxes (fst (run st prog))).
+Proof. intros Hn Hw Hf. apply run_no_rw; assumption. Qed.
+
 (* when no destination is writable nothing at all changes: messages, flags
    (incl. an implicit \Seen), stored \Recent marks, UID counters *)
 Theorem ro_unchanged st prog :
-  no_rw st -> Forall (fun c => is_select c = false) prog ->
+  no_rw st -> wfb (st_boxes st) -> Forall msg_cmd prog ->
   NoDup (map fst (st_boxes st)) ->
   (forall n, In n (dests prog) -> not_writable (st_boxes st) n) ->
   st_boxes (fst (run st prog)) = st_boxes st.
 Proof.
-  intros Hn Hf Hnd Hd. eapply only_adds_eq; [apply ro_only_adds; assumption|exact Hnd|exact Hd].
+  intros Hn Hw Hf Hnd Hd. eapply only_adds_eq; [apply ro_only_adds; assumption|exact Hnd|exact Hd].
+Qed.
+
+(* ---- with other connections writing in between: the mailboxes at the end are
+   what those other connections alone would have left *)
+Lemma ext_lookup bk bs e n :
+  match lookup n bs with
+  | Some b => exists b', lookup n (ext_boxes bk bs e) = Some b' /\ b_ro b' = b_ro b
+  | None => lookup n (ext_boxes bk bs e) = None
+  end.
+Proof.
+  assert (Hset : forall box b b', lookup box bs = Some b -> b_ro b' = b_ro b ->
+            match lookup n bs with
+            | Some b0 => exists b1, lookup n (set_box box b' bs) = Some b1 /\ b_ro b1 = b_ro b0
+            | None => lookup n (set_box box b' bs) = None
+            end).
+  { intros box b b' Hl Hr. destruct (N.eq_dec n box) as [->|Hne].
+    - rewrite Hl, lookup_set_box_same, Hl. exists b'. split; [reflexivity|exact Hr].
+    - rewrite lookup_set_box_other by congruence. destruct (lookup n bs); [eexists; split; reflexivity|reflexivity]. }
+  assert (Hid : match lookup n bs with
+                | Some b => exists b', lookup n bs = Some b' /\ b_ro b' = b_ro b
+                | None => lookup n bs = None end).
+  { destruct (lookup n bs); [eexists; split; reflexivity|reflexivity]. }
+  unfold ext_boxes. destruct e; cbn [ext_apply st_boxes st_bk st_sel].
+  - destruct (lookup box bs) as [b|] eqn:El; [|exact Hid]. destruct (b_ro b) eqn:Er; [exact Hid|].
+    cbn [set_sel st_boxes]. apply (Hset box b); [exact El|reflexivity].
+  - destruct (lookup box bs) as [b|] eqn:El; [|exact Hid]. destruct (b_ro b) eqn:Er; [exact Hid|].
+    cbn [mb_add set_sel st_boxes]. apply (Hset box b); [exact El|reflexivity].
+  - destruct (lookup box bs) as [b|] eqn:El; [|exact Hid]. destruct (b_ro b) eqn:Er; [exact Hid|].
+    cbn [set_sel st_boxes]. apply (Hset box b); [exact El|reflexivity].
+Qed.
+
+Lemma ext_keys bk bs e : map fst (ext_boxes bk bs e) = map fst bs.
+Proof.
+  unfold ext_boxes. destruct e; cbn [ext_apply st_boxes st_bk st_sel];
+    (destruct (lookup box bs) as [b|]; [|reflexivity]); (destruct (b_ro b); [reflexivity|]);
+    cbn [mb_add set_sel st_boxes]; apply set_box_keys.
+Qed.
+
+Theorem ro_erasure prog : forall st,
+  no_rw st -> wfb (st_boxes st) -> Forall msg_cmd (lcmds prog) ->
+  NoDup (map fst (st_boxes st)) ->
+  (forall n, In n (dests (lcmds prog)) -> not_writable (st_boxes st) n) ->
+  st_boxes (fst (run_l st prog)) = fold_left (ext_boxes (st_bk st)) (lexts prog) (st_boxes st).
+Proof.
+  induction prog as [|l r IH]; intros st Hn Hw Hf Hnd Hd; cbn [run_l lexts flat_map]; [reflexivity|].
+  destruct l as [c|e].
+  - cbn [lcmds flat_map app] in Hf, Hd. inversion Hf as [|? ? Hc Hr]; subst.
+    destruct (step_no_rw st c Hn Hw Hc) as [Hn1 Ha].
+    assert (Eb : st_boxes (fst (step st c)) = st_boxes st).
+    { eapply only_adds_eq; [exact Ha|exact Hnd|]. intros n Hi. apply Hd. unfold dests at 1.
+      cbn [flat_map]. apply in_or_app. left. exact Hi. }
+    assert (Ek : st_bk (fst (step st c)) = st_bk st).
+    { clear. destruct c; cbn [step];
+        unfold do_select, do_append, do_store, do_expunge, do_copy, do_move, do_fetch, do_close,
+               do_noop, do_status, do_search, do_create, do_delete, do_rename, after_names, reply, set_sel;
+        repeat match goal with
+               | |- context [match ?x with _ => _ end] => destruct x eqn:?
+               | |- context [let '(_, _) := ?x in _] => destruct x eqn:?
+               end; cbn [fst st_bk]; congruence. }
+    cbn [step_l app]. destruct (step st c) as [st1 o] eqn:Es. cbn [fst] in *.
+    destruct (run_l st1 r) as [st2 os] eqn:Er. cbn [fst].
+    specialize (IH st1). rewrite Er in IH. cbn [fst] in IH. rewrite IH; [rewrite Ek, Eb; reflexivity| | | | |].
+    + exact Hn1.
+    + rewrite Eb. exact Hw.
+    + exact Hr.
+    + rewrite Eb. exact Hnd.
+    + intros n Hi. rewrite Eb. apply Hd. unfold dests. cbn [flat_map]. apply in_or_app. right. exact Hi.
+  - cbn [step_l app fold_left]. destruct (run_l (ext_apply st e) r) as [st2 os] eqn:Er. cbn [fst].
+    specialize (IH (ext_apply st e)). rewrite Er in IH. cbn [fst] in IH.
+    assert (Ek : st_bk (ext_apply st e) = st_bk st).
+    { clear. destruct e; cbn [ext_apply]; unfold set_sel;
+        repeat match goal with
+               | |- context [match ?x with _ => _ end] => destruct x eqn:?
+               | |- context [let '(_, _) := ?x in _] => destruct x eqn:?
+               end; cbn [st_bk]; congruence. }
+    rewrite IH; [rewrite Ek, (ext_boxes_eq st e Hn); reflexivity| | | | |].
+    + apply ext_no_rw, Hn.
+    + rewrite ext_boxes_eq by exact Hn. apply uids_bounded_ext, Hw.
+    + exact Hf.
+    + rewrite ext_boxes_eq by exact Hn. rewrite ext_keys. exact Hnd.
+    + intros n Hi. rewrite ext_boxes_eq by exact Hn. specialize (Hd n Hi). unfold not_writable in *.
+      pose proof (ext_lookup (st_bk st) (st_boxes st) e n) as Hl.
+      destruct (lookup n (st_boxes st)) as [b|].
+      * destruct Hl as (b' & -> & Hr). congruence.
+      * rewrite Hl. exact I.
 Qed.
 
 (* refusals *)
@@ -258,9 +530,9 @@ Theorem ro_refused_move st s uid ss dest :
   step st (CMove uid ss dest) = (st, mkOut NO CReadOnly []).
 Proof. intros Hs Hr. cbn [step]. unfold do_move. rewrite Hs, Hr. reflexivity. Qed.
 
-Theorem ro_refused_append st box b fl date cid :
+Theorem ro_refused_append st box b msgs :
   lookup box (st_boxes st) = Some b -> b_ro b = true ->
-  step st (CAppend box fl date cid) = (st, mkOut NO CReadOnly []).
+  step st (CAppend box msgs) = (st, mkOut NO CReadOnly []).
 Proof. intros Hb Hr. cbn [step]. unfold do_append. rewrite Hb, Hr. reflexivity. Qed.
 
 Theorem ro_refused_copy_into st s sb d uid ss dest :
@@ -303,38 +575,46 @@ Proof. intros (s & Hs & Hr). unfold no_rw. rewrite Hs. exact Hr. Qed.
 
 (* the same, by mailbox name *)
 Theorem ro_only_adds_by_name st prog n b :
-  no_rw st -> Forall (fun c => is_select c = false) prog ->
+  no_rw st -> wfb (st_boxes st) -> Forall msg_cmd prog ->
   lookup n (st_boxes st) = Some b ->
   exists b', lookup n (st_boxes (fst (run st prog))) = Some b' /\ box_adds (dests prog) n b b'.
 Proof.
-  intros Hn Hf Hl. eapply only_adds_lookup; [apply ro_only_adds; assumption|exact Hl].
+  intros Hn Hw Hf Hl. eapply only_adds_lookup; [apply ro_only_adds; assumption|exact Hl].
 Qed.
 
-(* non-vacuity: a state with an EXAMINEd mailbox holding flagged, recent and
-   \Deleted messages, and a program with every kind of command, satisfy the
-   hypotheses of [ro_unchanged] *)
+(* non-vacuity: an EXAMINEd mailbox holding flagged, recent and \Deleted messages, a
+   program with every kind of message command and another connection writing in between
+   satisfy the hypotheses of [ro_erasure]; the final mailboxes are those the other
+   connection alone leaves *)
 Definition ex_boxes : boxes :=
   [(0, mkBox [mkMsg 101 [FSeen] 10 1 false; mkMsg 102 [FDeleted; FKw 0] 20 2 true] 102 false
-              [FSeen; FAnswered; FFlagged; FDeleted; FDraft]);
-   (2, mkBox [mkMsg 101 [] 30 3 true] 101 true [FSeen; FAnswered; FFlagged; FDeleted; FDraft])].
-Definition ex_prog : list cmd :=
-  [CFetch false [SRange (SNum 1) SMax] [mkAttr ABody true true];
-   CStore true [SOne SMax] OpAdd false [FDeleted];
-   CExpunge None; CExpunge (Some [SOne (SNum 102)]);
-   CCopy false [SOne (SNum 1)] 2; CMove true [SRange SMax (SNum 1)] 2; CMove false [SOne (SNum 2)] 7;
-   CAppend 2 [FSeen] 5 9; CClose; CAppend 7 [] 5 9].
-Example ro_unchanged_example :
+              [FSeen; FAnswered; FFlagged; FDeleted; FDraft] 7);
+   (2, mkBox [mkMsg 101 [] 30 3 true] 101 true [FSeen; FAnswered; FFlagged; FDeleted; FDraft] 8)].
+Definition ex_prog : list label :=
+  [LCmd (CFetch false [SRange (SNum 1) SMax] [mkAttr ABody true true]);
+   LExt (XStore 0 [101] OpAdd [FDeleted; FFlagged]);
+   LCmd (CStore true [SOne SMax] OpAdd false [FDeleted]);
+   LCmd (CExpunge None); LCmd (CExpunge (Some [SOne (SNum 102)]));
+   LExt (XAppend 0 [FSeen] 40 4);
+   LCmd (CSearch false [KFlag FDeleted true]); LCmd CNoop; LCmd (CStatus 0);
+   LCmd (CCopy false [SOne (SNum 1)] 2); LCmd (CMove true [SRange SMax (SNum 1)] 2);
+   LExt (XExpunge 0);
+   LCmd (CMove false [SOne (SNum 2)] 7);
+   LCmd (CAppend 2 [mkAmsg [FSeen] 5 9 false]); LCmd CClose; LCmd (CAppend 7 [mkAmsg [] 5 9 true])].
+Example ro_erasure_example :
   let st := fst (step (mkState Dict ex_boxes None) (CSelect 0 true)) in
-  ro_selected st /\ Forall (fun c => is_select c = false) ex_prog /\
+  ro_selected st /\ wfb (st_boxes st) /\ Forall msg_cmd (lcmds ex_prog) /\
   NoDup (map fst (st_boxes st)) /\
-  (forall n, In n (dests ex_prog) -> not_writable (st_boxes st) n) /\
-  st_boxes (fst (run st ex_prog)) = ex_boxes /\
-  map o_cond (snd (run st ex_prog)) = [OK; NO; NO; NO; NO; NO; NO; NO; OK; NO].
+  (forall n, In n (dests (lcmds ex_prog)) -> not_writable (st_boxes st) n) /\
+  st_boxes (fst (run_l st ex_prog))
+  = [(0, mkBox [mkMsg 103 [FSeen] 40 4 false] 103 false [FSeen; FAnswered; FFlagged; FDeleted; FDraft] 7);
+     (2, mkBox [mkMsg 101 [] 30 3 true] 101 true [FSeen; FAnswered; FFlagged; FDeleted; FDraft] 8)].
 Proof.
   cbn [fst]. split; [eexists; split; reflexivity|].
-  split; [repeat constructor|].
+  split; [vm_compute; repeat constructor; cbn; discriminate|].
+  split; [vm_compute; repeat constructor|].
   split; [vm_compute; repeat constructor; cbn; intuition discriminate|].
-  split; [|split; vm_compute; reflexivity].
+  split; [|vm_compute; reflexivity].
   intros n Hi. vm_compute in Hi. unfold not_writable.
   repeat (destruct Hi as [<-|Hi]; [vm_compute; try reflexivity; exact I|]). destruct Hi.
 Qed.
